@@ -28,8 +28,8 @@ ASSUMPTIONS = [
     'licensed cut-off: a transmittance term whose vertical optical depth is >= 10 at every wavenumber may be '
     'replaced by 0; by Abel summation the intensity then deviates by at most exp(-10)*(B_0 + sum_l |B_{l-1}-B_l|)',
 ]
-_Q = {'emission': 110, 'direct': 40, 'isothermal': 40}
-_T = {'emission': 2200, 'direct': 700, 'isothermal': 700}
+_Q = {'emission': 100, 'direct': 35, 'isothermal': 35, 'rerun': 40}
+_T = {'emission': 2000, 'direct': 600, 'isothermal': 600, 'rerun': 800}
 BUDGET = {
     'quick': [dict(name='boundscheck', env={'NUMBA_BOUNDSCHECK': '1'}, shards=4, cases=_Q)],
     'thorough': [dict(name='boundscheck', env={'NUMBA_BOUNDSCHECK': '1'}, shards=16, cases=_T),
@@ -39,7 +39,8 @@ REQUIRED = dict(monitors=['intensity-per-angle', 'flux', 'eclipse-spectrum', 'di
                           'isothermal-identity', 'between-coldest-and-hottest', 'quadrature-nodes',
                           'partial-model-equals-intensity'],
                 classes=['model:emission', 'model:directimage', 'clamp-possible', 'no-clamp', 'ngauss:1', 'ngauss:8',
-                         'T:isothermal', 'T:array', 'magnitude:transparent', 'magnitude:saturating'])
+                         'T:isothermal', 'T:array', 'magnitude:transparent', 'magnitude:saturating',
+                         'rerun:evaluated-after-change'])
 CUT = math.exp(-10.0)
 _state = {}
 
@@ -266,7 +267,44 @@ def wl_isothermal(ctx, rng):
     ctx.sig('iso', spec['nlayers'], spec['ngauss'], spec['magnitude'], round(T, 3))
 
 
-WORKLOADS = {'emission': wl_emission, 'direct': wl_direct, 'isothermal': wl_isothermal}
+def wl_rerun(ctx, rng):
+    """The same emission model object evaluated again after parameters were changed through model[name] = value
+    (what a retrieval does): every evaluation must equal the integral for the atmosphere it has at that moment."""
+    from taurex.exceptions import InvalidModelException
+    kind = ['emission', 'directimage'][int(rng.random() < 0.25)]
+    spec = make_case(rng)
+    observe_case(ctx, spec, kind)
+    model = realise(spec, kind)
+    snap, out = run(ctx, model)
+    if snap is None:
+        return
+    res = oracle(ctx, snap, spec)
+    judge_spectrum(ctx, snap, out, res, spec, kind)
+    changes_all = []
+    for k in range(int(rng.integers(1, 4))):
+        changes = base.perturb_model(rng, model)
+        changes_all.append([(n, float(a), float(b)) for n, a, b in changes])
+        ctx.feature(summary=world.spec_summary(spec), kind=kind, ngauss=spec['ngauss'], changes=changes_all)
+        _state['snap'] = None
+        try:
+            out = model.model()
+        except InvalidModelException as e:
+            ctx.license(type(e).__name__)
+            return
+        s2 = _state['snap']
+        _state['snap'] = None
+        zb = np.asarray(model.altitude_boundaries, dtype=float)
+        if not np.all(np.isfinite(zb)) or zb[-1] > 2.0 * s2['Rp']:
+            ctx.event('domain-skip:perturbed-atmosphere-unbound')
+            return
+        ctx.observe('rerun:evaluated-after-change')
+        r2 = oracle(ctx, s2, spec)
+        judge_spectrum(ctx, s2, out, r2, spec, kind)
+    ctx.sig('rerun', kind, spec['nlayers'], spec['ngauss'], spec['magnitude'], tuple(n for ch in changes_all for n, _, _ in ch),
+            round(spec['planet_mass'], 6))
+
+
+WORKLOADS = {'emission': wl_emission, 'direct': wl_direct, 'isothermal': wl_isothermal, 'rerun': wl_rerun}
 
 LEVEL_TEXT = ('Exploration by runtime monitoring: every evaluate_emission / compute_final_flux call made by the workload '
               'is tapped (layer thicknesses, density, temperatures, quadrature nodes and each contribution\'s prepared '
